@@ -572,6 +572,7 @@ int main(int argc, char **argv)
 	g_thorough = !strcmp(tier, "thorough");
 	const char *summary = arg_val(argc, argv, "--summary", NULL);
 	const char *replay_dir = arg_val(argc, argv, "--replay-dir", "/verif/replays");
+	const char *bname = arg_val(argc, argv, "--name", NULL);
 	double shrink_s = atof(arg_val(argc, argv, "--shrink-s", "30"));
 	double budget_s = atof(arg_val(argc, argv, "--budget-s", "0"));
 	uint64_t nenum = verif_enum_count(tier);
@@ -660,8 +661,8 @@ int main(int argc, char **argv)
 			n = shrink(best, n, r.sig, shrink_s);
 		}
 		mkdir(replay_dir, 0755);
-		snprintf(groups[g].path, sizeof groups[g].path, "%s/%s-%016llx.bin", replay_dir, verif_property,
-			 (unsigned long long)fnv(best, n));
+		if (bname) snprintf(groups[g].path, sizeof groups[g].path, "%s/%s-%s-%016llx.bin", replay_dir, verif_property, bname, (unsigned long long)fnv(best, n));
+		else snprintf(groups[g].path, sizeof groups[g].path, "%s/%s-%016llx.bin", replay_dir, verif_property, (unsigned long long)fnv(best, n));
 		FILE *f = fopen(groups[g].path, "wb");
 		if (f) { fwrite(best, 1, n, f); fclose(f); }
 		violations++;
